@@ -70,7 +70,7 @@ out.append("--------------------------------------------------------------------
 out.append("## 9. Seeded property-breaking changes and the checks that catch them\n")
 seeded = sorted(glob.glob(os.path.join(VERIF, "seeded/*/meta.json")))
 if seeded:
-    out.append("Each directory `seeded/<id>/` holds `patch.diff` (against the current /repo tree), `meta.json` and a short demonstration. The changes\nwere written by fresh sub-agents that were given only the property text and a scratch worktree of /repo; each was confirmed by me\n(builds, pinned suite passes, property visibly broken) before the checks were run on it. `caught` = the property's quick check exits 1 with a VIOLATION line.\n\nFour rounds were run. Round 1 (ids `_1`, `_2`): 40 changes, 32 caught at once, 8 after the checks were strengthened. Round 2 (ids `_3`, `_4`; the agents were told what round 1 had tried and asked for other mechanisms): 40 changes, 20 caught at once, 3 caught by a neighbouring property's existing check (a NUL in an edge label by C16, the jump queue by C13, the bulk write filter by C05), 17 only after the generators, corpora or observations were extended as described in the last column (every `MISSED` row; one of them, the serializer, by C11's new spool check). Round 3 (ids `_5`, `_6`; the agents were told what rounds 1 and 2 had tried and asked for the other mechanisms, rare branches and feature interactions): 40 changes, 18 caught at once, 22 only after strengthening (every `MISSED` row), four of those by a neighbouring property's check whose own check cannot see the change (a load-elided in-edge by C02, the edge key prefix and the index-field prefix test by C16, the memoised has() verdict by C01). Extending the checks for round 3 also exposed five genuine defects of the unchanged tree, all repaired (gripper and kvgraph null-producing moves, the index list of another graph, the StreamBatch error accumulator, Pebble/LevelDB bulk writes committing on error). Round 4 (ids `_7`, `_8`; same instructions, with the 120 earlier changes listed): 40 changes, 19 caught at once, 19 only after strengthening (three of them by a neighbouring property: Badger's delete-by-prefix at 10000 keys by C10, the bulk write filter by C05, and C03's label filter also by C01), one not caught (C17_7: needs an 80 MB job result read by a slow consumer, beyond what either tier spools) and one that is no longer a violation (C15_7 was written against the tree before fix fe16478 and has no observable effect after it). Working on round 4 exposed three more genuine defects of the unchanged tree, all repaired: the gripper multiplexer deadlock behind an absent row (fe16478), BoltKV.Get handing out bolt's own memory (cd14f35), and the asymmetry between kvgraph's outNull and inNull over dangling edges (b223fe4). Of the 160 stored changes 158 are caught by the committed checks; the strengthened checks pass on the unchanged tree. One agent of round 2 also reported a crash of the unchanged tree (select of a mark taken on a null traveler), repaired by `fix:` 54d578c.\n")
+    out.append("Each directory `seeded/<id>/` holds `patch.diff` (against the current /repo tree), `meta.json` and a short demonstration. The changes\nwere written by fresh sub-agents that were given only the property text and a scratch worktree of /repo; each was confirmed by me\n(builds, pinned suite passes, property visibly broken) before the checks were run on it. `caught` = the property's quick check exits 1 with a VIOLATION line.\n\nFour rounds were run. Round 1 (ids `_1`, `_2`): 40 changes, 32 caught at once, 8 after the checks were strengthened. Round 2 (ids `_3`, `_4`; the agents were told what round 1 had tried and asked for other mechanisms): 40 changes, 20 caught at once, 3 caught by a neighbouring property's existing check (a NUL in an edge label by C16, the jump queue by C13, the bulk write filter by C05), 17 only after the generators, corpora or observations were extended as described in the last column (every `MISSED` row; one of them, the serializer, by C11's new spool check). Round 3 (ids `_5`, `_6`; the agents were told what rounds 1 and 2 had tried and asked for the other mechanisms, rare branches and feature interactions): 40 changes, 18 caught at once, 22 only after strengthening (every `MISSED` row), four of those by a neighbouring property's check whose own check cannot see the change (a load-elided in-edge by C02, the edge key prefix and the index-field prefix test by C16, the memoised has() verdict by C01). Extending the checks for round 3 also exposed five genuine defects of the unchanged tree, all repaired (gripper and kvgraph null-producing moves, the index list of another graph, the StreamBatch error accumulator, Pebble/LevelDB bulk writes committing on error). Round 4 (ids `_7`, `_8`; same instructions, with the 120 earlier changes listed): 40 changes, 19 caught at once, 19 only after strengthening (three of them by a neighbouring property: Badger's delete-by-prefix at 10000 keys by C10, the bulk write filter by C05, and C03's label filter also by C01), one not caught (C17_7: needs an 80 MB job result read by a slow consumer, beyond what either tier spools) and one that is no longer a violation (C15_7 was written against the tree before fix fe16478 and has no observable effect after it). Working on round 4 exposed three more genuine defects of the unchanged tree, all repaired: the gripper multiplexer deadlock behind an absent row (fe16478), BoltKV.Get handing out bolt's own memory (cd14f35), and the asymmetry between kvgraph's outNull and inNull over dangling edges (b223fe4). All round-4 catches were confirmed by running the committed quick check on the patched tree; two of them depend on the schedule (the batcher's duplicated tail batch was seen in 3 of 4 quick runs, the jump queue's reordering in every run so far), and the thorough tier repeats those inputs five to seven times as often. Of the 160 stored changes 158 are caught by the committed checks; the strengthened checks pass on the unchanged tree. One agent of round 2 also reported a crash of the unchanged tree (select of a mark taken on a null traveler), repaired by `fix:` 54d578c.\n")
     out.append("| id | property | change | caught by | how |\n|---|---|---|---|---|")
     for f in seeded:
         m = json.load(open(f))
